@@ -49,6 +49,7 @@ const (
 	decBranch decKind = iota // If / internal branch: val = 1 (true) or 0
 	decValue                 // concretisation / Choose: val = chosen value
 	decAssume                // Assume / Assert continuation: val unused
+	decSwitch                // reconstructed switch (lookahead.go): val = index of the target
 )
 
 type decision struct {
@@ -159,6 +160,7 @@ type Engine struct {
 	Recheck   float64 // fraction of domain decisions re-checked by z3
 	Seed      int64
 	FinalZ3   bool // confirm every path condition with the solver at the end of the path
+	NoLookahead bool // disable switch reconstruction (fork at every compare)
 	QueryLog  *lockedWriter
 
 	mu      sync.Mutex
@@ -192,6 +194,7 @@ type pathState struct {
 	st              *workerStats
 	rng             uint64
 	lastFn          *ssa.Function
+	spec            bool // executing side-effect-free blocks ahead of time (lookahead.go)
 }
 
 type witnessSlot struct {
@@ -361,6 +364,9 @@ func (ps *pathState) apply(d decision, c *Term) {
 
 // branch decides a symbolic condition, forking when both sides are feasible.
 func (ps *pathState) branch(fr *frame, c *Term) bool {
+	if ps.spec {
+		panic(specAbort{})
+	}
 	if c.isConst() {
 		return c.k != 0
 	}
@@ -417,7 +423,7 @@ func (ps *pathState) branch(fr *frame, c *Term) bool {
 	}
 	switch {
 	case feasT && feasF:
-		ps.fork(dF)
+		ps.fork(fr, dF)
 		ps.apply(dT, c)
 		return true
 	case feasT:
@@ -442,7 +448,12 @@ func (ps *pathState) recheck() bool {
 	return float64(ps.rng>>11)/float64(1<<53) < ps.eng.Recheck
 }
 
-func (ps *pathState) fork(alt decision) {
+var ForkLog func(kind string, site string)
+
+func (ps *pathState) fork(fr *frame, alt decision) {
+	if ForkLog != nil && fr != nil {
+		ForkLog(fmt.Sprint(alt.kind), fr.fn.Name()+" "+fr.site())
+	}
 	n := len(ps.decisions)
 	p := make([]decision, n+1)
 	copy(p, ps.decisions)
@@ -453,6 +464,9 @@ func (ps *pathState) fork(alt decision) {
 
 // assume constrains the path with c; the path ends if c is infeasible.
 func (ps *pathState) assume(fr *frame, c *Term) {
+	if ps.spec {
+		panic(specAbort{})
+	}
 	if c.isConst() {
 		if c.k == 0 {
 			panic(engineAbort{abortAssume, "assumption false"})
@@ -485,6 +499,9 @@ func (ps *pathState) assume(fr *frame, c *Term) {
 // obligation counts a proof obligation; discharged when PC ∧ ¬c is unsat.
 // (Used for evidence; violation reporting is done by the caller through branch/assert.)
 func (ps *pathState) obligation(fr *frame, what string, c *Term) {
+	if ps.spec {
+		panic(specAbort{})
+	}
 	if len(ps.decisions) < len(ps.prefix) {
 		return // already counted by the path that discovered this prefix
 	}
@@ -503,6 +520,9 @@ func (ps *pathState) obligation(fr *frame, what string, c *Term) {
 // assert checks c on every input of the path; a counterexample is recorded as
 // a failure with its witness, and the path continues under c.
 func (ps *pathState) assert(fr *frame, id string, c *Term) {
+	if ps.spec {
+		panic(specAbort{})
+	}
 	if c.isConst() {
 		if len(ps.decisions) >= len(ps.prefix) {
 			ps.st.oblig++
@@ -570,6 +590,9 @@ func callerSite(fr *frame) string {
 
 // concretize forks over the feasible values of s and returns the chosen one.
 func (ps *pathState) concretize(fr *frame, s sym) int64 {
+	if ps.spec {
+		panic(specAbort{})
+	}
 	signed := kindSigned(s.k)
 	conv := func(u uint64) int64 {
 		if signed {
@@ -625,7 +648,7 @@ func (ps *pathState) concretize(fr *frame, s sym) int64 {
 			panic(engineAbort{abortInfeasible, "no feasible value at " + fr.site()})
 		}
 		for k := len(alts) - 1; k >= 1; k-- {
-			ps.fork(decision{kind: decValue, hasDom: true, v: int32(v.id), val: int64(alts[k].val), dom: alts[k].dom})
+			ps.fork(fr, decision{kind: decValue, hasDom: true, v: int32(v.id), val: int64(alts[k].val), dom: alts[k].dom})
 		}
 		d := decision{kind: decValue, hasDom: true, v: int32(v.id), val: int64(alts[0].val), dom: alts[0].dom}
 		ps.apply(d, nil)
@@ -657,7 +680,7 @@ func (ps *pathState) concretize(fr *frame, s sym) int64 {
 	}
 	sort.Slice(vals, func(a, b int) bool { return vals[a] < vals[b] })
 	for k := len(vals) - 1; k >= 1; k-- {
-		ps.fork(decision{kind: decValue, val: int64(vals[k])})
+		ps.fork(fr, decision{kind: decValue, val: int64(vals[k])})
 	}
 	d := decision{kind: decValue, val: int64(vals[0])}
 	ps.apply(d, mkEq(s.t, mkConst(w, vals[0])))
@@ -666,6 +689,9 @@ func (ps *pathState) concretize(fr *frame, s sym) int64 {
 
 // choose forks n ways and returns 0..n-1.
 func (ps *pathState) choose(fr *frame, n int) int {
+	if ps.spec {
+		panic(specAbort{})
+	}
 	if n <= 0 {
 		panic(engineAbort{abortAssume, "Choose(0)"})
 	}
@@ -678,7 +704,7 @@ func (ps *pathState) choose(fr *frame, n int) int {
 		ps.decisions = append(ps.decisions, d)
 	} else {
 		for k := n - 1; k >= 1; k-- {
-			ps.fork(decision{kind: decValue, val: int64(k)})
+			ps.fork(fr, decision{kind: decValue, val: int64(k)})
 		}
 		ps.decisions = append(ps.decisions, decision{kind: decValue, val: 0})
 	}
